@@ -14,7 +14,7 @@ for d in sorted(glob.glob('/verif/seeded/*/')):
     desc = re.sub(r'\s+', ' ', desc)[:170]
     rows.append((os.path.basename(d.rstrip('/')), desc, m['detected']['summary']))
 def rnd(name):
-    return 6 if '-r6-' in name else 5 if '-r5-' in name else 4 if '-r4-' in name else 3 if '-r3-' in name else 2 if '-r2-' in name else 1
+    return 7 if '-r7-' in name else 6 if '-r6-' in name else 5 if '-r5-' in name else 4 if '-r4-' in name else 3 if '-r3-' in name else 2 if '-r2-' in name else 1
 stats = {}
 for r in rows:
     k = rnd(r[0])
@@ -42,7 +42,10 @@ scratch memory, narrowed integer types, fast paths above a size; refactors; well
 needs two thresholds at once, a size between 64 and 5000, a particular error value, or a value with a past; round 6 for
 two more, given the earlier eleven, restricted to ALGORITHMIC slips inside the algorithms themselves (an invariant
 restored in all but one branch, a tie broken the wrong way, an over-eager early exit, a missing case) that are wrong
-for a structurally special minority of SMALL inputs. Each change compiles, passes the repository's own
+for a structurally special minority of SMALL inputs; round 7 for two more, given the earlier thirteen, again as realistic
+maintenance commits but excluding every family used before (relations between two arguments, regularity the author
+assumed, order of side effects, arithmetic simplifications, dropped doc-comment promises, zero values, hoisted loop
+invariants). Each change compiles, passes the repository's own
 test-suite and comes with a demonstration test that fails with the change and passes without it; all of that was
 re-confirmed with `tools/eval_mut.sh` (C19-r2-2 by hand under `-race`) before the change was kept under
 `seeded/<property>-<k>/`, `seeded/<property>-r<round>-<k>/` (`patch.diff`, `demo_test.go.txt`,
@@ -53,7 +56,7 @@ git -C /repo checkout -- .`.
 |---|---|---|---|---|
 """ + "".join(f"| {k} | {v[0]} | {v[0]-v[1]-v[2]} | {v[1]} | {v[2]} |\n" for k, v in sorted(stats.items())) + """
 (For round 2 the checks had already been extended after reading the authors' notes, so "on arrival" is generous there;
-for rounds 1, 3, 4, 5 and 6 every change was run first.) After the strengthenings every seeded change is reported by the quick
+for rounds 1, 3, 4, 5, 6 and 7 every change was run first.) After the strengthenings every seeded change is reported by the quick
 tier of some check, except C04-r2-3 (quick: about one seed in four; thorough: always). Changes reported by a different
 check than the one they were written for: C03-r2-1 (C01/C02), C03-r2-2 (C19), C03-r2-3 (C18), C10-r3-2 (C06),
 C19-r3-1 (C13) - each because the behaviour it breaks is that other property's subject. In round 4 four changes to
@@ -66,6 +69,8 @@ on small structured inputs) is where the checks were strongest: 34 of 38 valid c
 changes to `Load` are not claimed: C04-r6-1 only matters for a >= m, outside the quantifier 0 <= a < m; C04-r6-2 breaks
 loading several saves from ONE shared reader, which the property does not promise (and which the unmodified code does not
 deliver either for a reader that is not an io.ByteReader) - asserting it would demand more than the property states.
+Round 7 was the control sample for the strengthenings of rounds 4-6 (same kind of commit as rounds 4 and 5, which had been
+reported on arrival only half of the time): 34 of 40 were reported on arrival.
 
 | seeded change | what it does (from the author's note) | result |
 |---|---|---|
@@ -101,7 +106,13 @@ detour, and as a small view of a much larger host with hub vertices; (16) sizes:
 are known by construction (block trees, long thin partial orders, chains in a DAWG, transported orbit partitions) where
 exhaustive oracles stop; (17) injected faults vary in kind, not only in position: the error VALUE a failing Write
 returns is part of the fault space; (18) parameter regimes that make an iterator long but thin (k = n, near-total orders)
-are as cheap as small ones and reach code that small n never enters.
+are as cheap as small ones and reach code that small n never enters; (19) observers are part of the history: they are
+read after every step in some cases and only every second, third or fifth step in others; (20) data handed to the
+library through an interface comes in every conforming behaviour of that interface (io.Reader with one byte, half, or
+data-with-EOF per call; io.Writer failing with different error values; a caller's own graph.Graph implementation);
+(21) values the library returns or that are derived from shared values are edited by their owner while others still read
+the originals, and own values are edited the moment a call returns - under the race detector this shows library
+goroutines that outlive their call and deep copies that are not deep.
 """
 s = open('/verif/DESIGN.md').read()
 tail = ''
